@@ -611,6 +611,13 @@ func check(id, tier string, budgetOverride int, keep bool) int {
 			workers = n
 		}
 	}
+	if tier == "thorough" && !nativeMode {
+		// determinism first: the same seed must give the same event logs in separate processes at different GOMAXPROCS
+		if bad := determinismOf(sc, p, []int{1, 16}, 1, 48); bad > 0 {
+			sc.cleanup()
+			infra("determinism self-test failed for %d harness configuration(s) of %s", bad, id)
+		}
+	}
 	known := loadKnown()
 	var results []*subResult
 	violations := 0
@@ -769,22 +776,30 @@ func determinism(id string) int {
 	}
 	sc := prepare(id+"-det", pkgsOf(p), false)
 	defer sc.cleanup()
-	bad := 0
+	if bad := determinismOf(sc, p, []int{1, 4, 16}, 4, 96); bad > 0 {
+		fmt.Println("determinism: FAILED")
+		return 2
+	}
+	fmt.Println("determinism: ok")
+	return 0
+}
+
+func determinismOf(sc *scratch, p *Prop, procsList []int, reps int, runs uint64) (bad int) {
 	for i := range p.Subs {
 		sub := &p.Subs[i]
 		digests := map[string]int{}
 		var mu sync.Mutex
 		var wg sync.WaitGroup
 		n := 0
-		for _, procs := range []int{1, 4, 16} {
-			for rep := 0; rep < 4; rep++ {
+		for _, procs := range procsList {
+			for rep := 0; rep < reps; rep++ {
 				n++
 				k := n
 				wg.Add(1)
 				go func() {
 					defer wg.Done()
-					out := fmt.Sprintf("%s/out/det-%d.json", sc.dir, k)
-					j := &job{sub: sub, mode: "digest", seed: seedEnv(), out: out, budget: 120 * time.Second, maxRuns: 96, extra: []string{fmt.Sprintf("GOMAXPROCS=%d", procs)}}
+					out := fmt.Sprintf("%s/out/det-%d-%d.json", sc.dir, i, k)
+					j := &job{sub: sub, mode: "digest", seed: seedEnv(), out: out, budget: 120 * time.Second, maxRuns: runs, extra: []string{fmt.Sprintf("GOMAXPROCS=%d", procs)}}
 					if err := sc.exec(j); err != nil {
 						mu.Lock()
 						digests["error: "+err.Error()]++
@@ -796,6 +811,7 @@ func determinism(id string) int {
 					}
 					b, _ := os.ReadFile(out)
 					json.Unmarshal(b, &res)
+					os.Remove(out)
 					mu.Lock()
 					digests[res.Digest]++
 					mu.Unlock()
@@ -803,15 +819,10 @@ func determinism(id string) int {
 			}
 		}
 		wg.Wait()
-		fmt.Printf("determinism %s/%s: %v\n", sub.Pkg, sub.Harness, digests)
+		fmt.Printf("determinism %s/%s %s: %v\n", sub.Pkg, sub.Harness, sub.Config, digests)
 		if len(digests) != 1 {
 			bad++
 		}
 	}
-	if bad > 0 {
-		fmt.Println("determinism: FAILED")
-		return 2
-	}
-	fmt.Println("determinism: ok")
-	return 0
+	return bad
 }
